@@ -20,7 +20,8 @@ from fractions import Fraction
 from common import *
 import c05_amount2coq
 
-COQ_FILES = ['Gen/C05Amount.v', 'C05/Model.v', 'C05/Amount.v', 'C05/Proofs.v', 'C05/AmountProofs.v', 'C05/Cases.v', 'C05/Props.v']
+COQ_FILES = ['Gen/C05Amount.v', 'C05/Model.v', 'C05/Amount.v', 'C05/Proofs.v', 'C05/AmountProofs.v', 'C05/Csv.v', 'C05/CsvProofs.v',
+             'C05/Cases.v', 'C05/Props.v']
 IMPL = os.path.join(os.path.dirname(os.path.abspath(__file__)), 'impl_c05.py')
 # the model variant compared with the implementation is C05/Model.v tree_variant (as_code for the unchanged tree)
 
@@ -744,7 +745,9 @@ def t_spec(case, r):
 def t_input(case, r):
     lib = r['lib']
     if case['lay']['kind'] == 'csv':
-        return node(leaf('C'), lst(lst(leaf(c) for c in rec) for rec in lib['records']))
+        # the model reads the file TEXT with its own csv reader (C05/Csv.v) and must reproduce CPython's records
+        return node(leaf('F'), opt(r['spec']['delimiter']), leaf(file_text(case, case['rows'])),
+                    lst(lst(leaf(c) for c in rec) for rec in lib['records']))
     ls = []
     for line, g in zip(lib['lines'], lib['groups']):
         ls.append(node(leaf(line), b'()' if g is None else node(lst(opt(c) for c in g))))
@@ -779,9 +782,7 @@ def outside_fragment(case, r):
         why.append('csv-error')
         return why
     if case['lay']['kind'] == 'csv':
-        if lib['records'] != intended_records(case):
-            why.append('csv-roundtrip-differs')
-        rows = lib['records']
+        rows = lib['records']      # (cells changed by universal newlines are no longer outside: the model reads the text)
     else:
         rows = [g for g in lib['groups'] if g is not None]
     ac = r['spec']['amount_column']
@@ -842,9 +843,10 @@ def slim(case):
 def main(tier):
     run = Run('C05', tier)
     run.assumptions = [
-        'rows are tokenised: CPython csv.reader / text-mode line iteration / re.match(...).groups() are libraries outside the '
-        'model; the harness feeds the model the records they produced and discards (counted) files whose csv.reader(csv.writer(rows)) '
-        'differs from rows',
+        'comma / one-ASCII-character / tab delimited files: the model reads the file TEXT itself (C05/Csv.v: delimiter dispatch, universal '
+        'newlines, hand model of CPython\'s csv state machine for the excel dialect, header as one record) and must reproduce both '
+        'csv.reader\'s records and parse_generic_csv\'s transactions; regex-delimited files: text-mode line iteration and '
+        're.match(...).groups() are libraries outside the model (the harness feeds the model the lines and groups)',
         'datetime.strptime is an oracle: a Section variable in every theorem; at run time the table CPython returned for the date '
         'texts of the case (the model computes the text itself: strip, then split()[0] when the format has no space)',
         'string.Formatter().parse splits the description template; templates are literal text and {name} only (others discarded, counted)',
